@@ -73,6 +73,14 @@ func c02Tamper(t *rapid.T, b *opBuild, class string, p protocol.Protocol, donor 
 		b.SignKey = o
 		b.Signed[keyMember(b.Type)] = o.JWKValue()
 		b.Header["alg"] = o.Type.Alg()
+		// the attacker controls every member of the payload they sign: members the schema knows but the operation type does
+		// not use may be set to anything convenient
+		if rapid.Bool().Draw(t, "extraSignedMembers") {
+			b.Signed["revealValue"] = o.Reveal(b.Alg)
+			if b.Type != "deactivate" {
+				b.Signed["didSuffix"] = b.Suffix
+			}
+		}
 		b.sign()
 		b.Reveal = reveal
 		b.assemble()
